@@ -111,6 +111,13 @@ fn agree<T: Serialize>(o: &mut Out, class: &str, what: &str, st: &ST, v: &T) {
     if ss.len() + js.len() < 30000 {
         o.case("dynser", &[&ss, &js], &format!("ok {}", hex(&stat)));
         o.case("dynde", &[&ss, &hex(&stat)], &format!("ok {}", js));
+        // the model of serde_json::to_value and of the property's restrictions, on the captured items
+        if let Ok(nv) = capture(v) {
+            let nvs = nv.to_string();
+            o.case("jsonof", &[&nvs], &js);
+            o.case("inscope", &[&ss, &nvs], "11");
+            o.case("conform", &[&ss, &nvs, &hex(&stat)], "1 ok x");
+        }
     }
 }
 
